@@ -10,6 +10,9 @@
 From Coq Require Import ZArith List Bool String.
 Require Import Model.Base Model.Pipeline Proofs.PipelineProofs Proofs.PanicSiteProofs.
 Require Import Gen.PanicSites Gen.PanicMap.
+(* developments of other properties that C01 builds on, by qualified name only
+   (std++ notations are not imported here) *)
+Require Model.Lift Spec.CfgSpec Proofs.LiftTotalFlat Model.Includes Proofs.IncludesNoPanic.
 Import ListNotations.
 Local Open Scope Z_scope.
 
@@ -85,23 +88,81 @@ Theorem C01_split_string_old_refuted :
 Proof. exact split_string_old_refuted. Qed.
 Print Assumptions C01_split_string_old_refuted.
 
+(* lifting (control_flow_graph/lifting.rs, mirror Model.Lift of C12) never panics on
+   the shape the DESUGARER hands on: the body is a block and every entry of an
+   initialisation block is straight-line (a leaf, or a block / initialisation
+   block of such) -- remove_tuples_from_statement turns `var (a, b) = (1, 2);`
+   into a block of substitutions inside the initialisation block, which C12's
+   parser_shaped (leaves only) does not admit. Both assert!s and every indexing
+   of lifting.rs are Panic sites of the mirror. *)
+Theorem C01_lift_never_panics_on_desugared_shape : forall body : Model.Lift.sk,
+  Proofs.LiftTotalFlat.desugared_shape body -> exists g, Model.Lift.lift body = Ok g.
+Proof. exact Proofs.LiftTotalFlat.lift_never_panics_desugared. Qed.
+Print Assumptions C01_lift_never_panics_on_desugared_shape.
+
+(* the class of C12_lift_never_panics is contained in it *)
+Theorem C01_parser_shaped_is_desugared_shape : forall body : Model.Lift.sk,
+  Spec.CfgSpec.parser_shaped body -> Proofs.LiftTotalFlat.desugared_shape body.
+Proof. exact Proofs.LiftTotalFlat.parser_shaped_desugared_shape. Qed.
+Print Assumptions C01_parser_shaped_is_desugared_shape.
+
+(* neither `expect` of parser/src/include_logic.rs fires (mirror Model.Includes of
+   C19, sites 1901/1902): for every file system in which a canonical path that is
+   not a directory has a file name, every command line, library list and fuel,
+   parse_files never returns Panic. (C19_include_terminates / C19_run_project_fuel_ok
+   exclude OutOfFuel.) *)
+Theorem C01_includes_never_panic :
+  forall (path : Type) (EqDecision0 : stdpp.base.EqDecision path)
+         (canon : path -> option path) (is_dir is_file : path -> bool)
+         (read_dir : path -> option (list path)) (join : path -> path -> path)
+         (parent : path -> path) (file_name : path -> option path)
+         (ext_circom starts_dot has_sep : path -> bool)
+         (content : path -> Model.Includes.file_content path),
+    (forall p c, is_dir p = false -> canon p = Some c -> file_name c <> None) ->
+    forall (d23 : bool) (dfuel fuel : nat) (paths libs : list path) (s : Z),
+      Model.Includes.parse_files canon is_dir is_file read_dir join parent file_name ext_circom
+                                 starts_dot has_sep content d23 dfuel fuel paths libs <> Panic s.
+Proof. exact @Proofs.IncludesNoPanic.parse_files_no_panic. Qed.
+Print Assumptions C01_includes_never_panic.
+
 (* the assembly: if no stage panics or runs out of fuel (an Err is allowed: it
    becomes a report and the run continues) and the output stage ends with exit
    status 0 or 1, the pipeline ends with exit status 0 or 1 for every command
-   line. The premises are named after what discharges them:
-     files      C19_include_terminates, C19_run_project_fuel_ok (fuel); the two
-                `expect`s of include_logic.rs are observed
-     parse      C05_preprocess_total, the action theorems above; the LALRPOP
-                automaton is observed
-     desugar    C18_pass2_unreachable_never_fires (pass 2); pass 1 observed
-                (C18_desugar_never_panics_full_statement is open)
-     lift       C10_pass_never_panics (renaming); lifting observed (C12 pending)
-     ssa        C15_no_panic, C15_dom_fuel_suffices (dominators); construction
-                observed, its output validated by C14
-     propagate  C16_field_never_panics, C16_egcd_total, C16_shift_bounded_work,
-                C14_unique_defs (add_variable's assert); the loop is time-boxed
-     passes     C09_taint_fuel_suffices, C11_*_reports_exact; others observed
-     output     C03_exit_zero_iff_nothing_displayed, C03_summary_counts_displayed *)
+   line. The premises are named after what discharges them for the mirrors:
+     files      C01_includes_never_panic (no Panic, both `expect`s) +
+                C19_include_terminates, C19_run_project_fuel_ok (no OutOfFuel)
+     parse      C05_preprocess_total, the action theorems above (C01_decnumber_,
+                hexnumber_, string_action_total, C01_version_action_never_panics);
+                build_log_call -> C01_split_string_never_panics; the LALRPOP
+                automaton and lexer are observed
+     desugar    C18_desugar_never_panics: remove_syntactic_sugar as a whole returns
+                DOk on parser output (wf_template: metas belong to a file of the
+                library, log strings <= 230 bytes -- which is the chunk bound of
+                C01_split_string_never_panics --, named inputs one per argument,
+                bodies are blocks); C18_desugar_output_sugar_free +
+                C18_functions_with_sugar_rejected keep the catch-all panic!s of IR
+                lifting unreachable
+     lift       C10_pass_never_panics (renaming; environment.rs asserts),
+                C10_renaming_injective_on_declarations (Declarations::add_declaration),
+                C01_lift_never_panics_on_desugared_shape (extends C12_lift_never_panics);
+                that the desugared body has this shape follows from the grammar and
+                the two rewriting arms of the desugarer and is observed (C12/C13
+                correspondence on the real into_cfg)
+     ssa        C15_no_panic, C15_dom_fuel_suffices (DominatorTree::new on a rooted
+                graph; C12_all_reachable: every lifted graph is rooted); the SSA
+                construction itself (Model.Ssa has SPanic/SFuel sites) has no
+                totality theorem: observed, its output validated by C14
+     propagate  C16_field_never_panics, C16_egcd_total, C16_shift_bounded_work (field
+                operations); C14_unique_defs + fix 79353f9 (add_variable's
+                assert_eq!); C20_propagate_validated_at_every_budget covers every
+                cut of the time-boxed loop but is conditional on the mirror
+                returning Ok: absence of Panic in the loop is observed
+     passes     C12_branch_only_last, C12_branch_targets_exist_and_are_succs,
+                C12_preds_succs_mirror, C15_*_exact (the cfg.rs accessors the taint
+                analysis uses), C09_taint_fuel_suffices, C11_*_reports_exact,
+                C04_label_start_le_end (label ranges); the other passes are observed
+     output     C03_exit_zero_iff_nothing_displayed, C03_summary_counts_displayed,
+                C04_label_construction_panics_only_on_unwrap *)
 Theorem C01_pipeline_total :
   forall (Argv Source Ast Definition_ Cfg Ssa Report : Type)
          (stage_files : Argv -> outcome (list Source))
